@@ -1,7 +1,24 @@
-import Account.Modifiers
+import Account.Nests
+import Account.Driver.ProgAcct
 import Common.Proto
-/-! Model driver for C09: answers the op lines of `harness/hx-accounts/src/c09.rs`. -/
-open Common Common.Proto Account.Modifiers
+/-!
+Model driver for C09: answers the op lines of `harness/hx-accounts/src/c09.rs`.
+
+```
+nest <progid:hex32> <set> <acct>*    decode + validate of the account set over the given accounts
+meta <chain>                          advertised SingleSetMeta of a single-account chain  -> <s><w>
+eq <a:hex32> <b:hex32>                the framework's fast 32-byte comparison            -> 1 | 0
+
+set   := opt(set) | box(set) | rest(set) | arr<N>(set) | vec<N>(set) | addr:<hex32>(set)
+       | st(set;set;…) | chain
+chain := layer,layer,…,base
+layer := signer | mut | nsigner | nmut | advw | advs | box | addr:<hex32> | seeded:<hex32>
+       | init | initnf (no funder in the Context)
+base  := info | sysacct | program:<hex32> | sysvar:<hex32> | acct:<progid>:<disc> | borsh:<progid>:<disc>
+acct  := <key:hex32>:<owner:hex32>:<signer 0|1>:<writable 0|1>:<data:hex>
+```
+-/
+open Common Common.Proto Account.Validate Account.Nests
 
 namespace Account.Driver.C09
 
@@ -9,7 +26,10 @@ def parseKey (s : String) : Option (List Nat) := do
   let k ← parseHex s
   if k.length = 32 then some k else none
 
-def parseLayerOrBase (s : String) : Option (Sum Layer Base) :=
+def parseBit (s : String) : Option Bool :=
+  if s = "1" then some true else if s = "0" then some false else none
+
+def parseItem (s : String) : Option (Sum Layer Base) :=
   match s with
   | "signer" => some (.inl .signer)
   | "mut" => some (.inl .wr)
@@ -17,52 +37,118 @@ def parseLayerOrBase (s : String) : Option (Sum Layer Base) :=
   | "nmut" => some (.inl .nmut)
   | "advw" => some (.inl .advw)
   | "advs" => some (.inl .advs)
+  | "box" => some (.inl .box)
+  | "init" => some (.inl (.init true))
+  | "initnf" => some (.inl (.init false))
   | "info" => some (.inr .info)
   | "sysacct" => some (.inr .sysacct)
   | _ =>
     match s.splitOn ":" with
     | ["addr", h] => (parseKey h).map (fun k => .inl (.addr k))
+    | ["seeded", h] => (parseKey h).map (fun k => .inl (.seeded k))
     | ["program", h] => (parseKey h).map (fun k => .inr (.program k))
     | ["sysvar", h] => (parseKey h).map (fun k => .inr (.sysvar k))
+    | ["acct", p, d] =>
+      match parseKey p, parseHex d with
+      | some p, some d => some (.inr (.account { progId := p, disc := d, body := 2 }))
+      | _, _ => none
+    | ["borsh", p, d] =>
+      match parseKey p, parseHex d with
+      | some p, some d => some (.inr (.borsh { progId := p, disc := d, body := 0 }))
+      | _, _ => none
     | _ => none
 
-def parseItems : List String → Option (List Layer × Base)
+def parseChainItems : List String → Option (List Layer × Base)
   | [] => none
-  | [b] => match parseLayerOrBase b with
+  | [b] => match parseItem b with
     | some (.inr b) => some ([], b)
     | _ => none
-  | l :: rest => match parseLayerOrBase l with
-    | some (.inl l) => (parseItems rest).map (fun (ls, b) => (l :: ls, b))
+  | l :: rest => match parseItem l with
+    | some (.inl l) => (parseChainItems rest).map (fun (ls, b) => (l :: ls, b))
     | _ => none
 
-def parseNest (s : String) : Option Nest :=
-  match s.splitOn "," with
-  | "opt" :: rest => (parseItems rest).map (fun (ls, b) => { opt := true, layers := ls, base := b })
-  | items => (parseItems items).map (fun (ls, b) => { opt := false, layers := ls, base := b })
+def parseChain (s : String) : Option (List Layer × Base) := parseChainItems (s.splitOn ",")
 
-def showErr : Err → String
-  | .expectedWritable => "err:Custom1000"
-  | .expectedSigner => "err:Custom1001"
-  | .addressMismatch => "err:Custom1002"
-  | .illegalOwner => "err:IllegalOwner"
-  | .incorrectProgramId => "err:IncorrectProgramId"
-  | .missingAccount => "err:MissingAccount"
+/-- Split `s` (the inside of `st(…)`) at the top-level `;`. -/
+def splitTop (cs : List Char) : List (List Char) :=
+  let rec go (cs : List Char) (depth : Nat) (cur : List Char) (acc : List (List Char)) : List (List Char) :=
+    match cs with
+    | [] => (cur.reverse :: acc).reverse
+    | c :: rest =>
+      if c = '(' then go rest (depth + 1) (c :: cur) acc
+      else if c = ')' then go rest (depth - 1) (c :: cur) acc
+      else if c = ';' ∧ depth = 0 then go rest depth [] (cur.reverse :: acc)
+      else go rest depth (c :: cur) acc
+  go cs 0 [] []
+
+def seqOf : List ASet → ASet
+  | [] => .nil
+  | s :: ss => .cons s (seqOf ss)
+
+/-- `head(inner)` with the parentheses balanced at the very end. -/
+def splitCall (s : String) : Option (String × String) :=
+  match s.splitOn "(" with
+  | [] => none
+  | [_] => none
+  | head :: _ =>
+    if s.endsWith ")" then
+      let inner := (s.drop (head.length + 1)).dropEnd 1
+      some (head, inner.toString)
+    else none
+
+partial def parseSet (s : String) : Option ASet :=
+  match splitCall s with
+  | none => (parseChain s).map (fun (ls, b) => .single ls b)
+  | some (head, inner) =>
+    if head = "opt" then (parseSet inner).map .opt
+    else if head = "box" then (parseSet inner).map .boxed
+    else if head = "rest" then (parseSet inner).map .rest
+    else if head = "st" then
+      let parts := (splitTop inner.toList).map String.ofList
+      (parts.mapM parseSet).map seqOf
+    else if head.startsWith "arr" then
+      match (head.drop 3).toString.toNat? with
+      | some n => if n ≤ 8 then (parseSet inner).map (.arr n) else none
+      | none => none
+    else if head.startsWith "vec" then
+      match (head.drop 3).toString.toNat? with
+      | some n => if n ≤ 8 then (parseSet inner).map (.arr n) else none
+      | none => none
+    else if head.startsWith "addr:" then
+      match parseKey (head.drop 5).toString with
+      | some k => (parseSet inner).map (.addr k)
+      | none => none
+    else none
+
+def parseAcct (s : String) : Option NAcct :=
+  match s.splitOn ":" with
+  | [k, o, sg, w, d] =>
+    match parseKey k, parseKey o, parseBit sg, parseBit w, parseHex d with
+    | some k, some o, some sg, some w, some d =>
+      some { key := k, signer := sg,
+             a := { owner := o, data := d, writable := w, borrow := Borrow.free, orig := d.length } }
+    | _, _, _, _, _ => none
+  | _ => none
 
 def showRes : Except Err Unit → String
   | .ok () => "ok"
-  | .error e => showErr e
+  | .error e => Account.Driver.ProgAcct.showErr e
 
 def step (_ : Unit) (toks : List String) : Unit × String :=
   match toks with
-  | ["val", nest, p, s, w, key, owner] =>
-    match parseNest nest, parseBool p, parseBool s, parseBool w, parseKey key, parseKey owner with
-    | some n, some p, some s, some w, some key, some owner =>
-      let acct : Option Acct := if p then some { key, owner, signer := s, writable := w } else none
-      ((), showRes (validate n acct))
-    | _, _, _, _, _, _ => ((), "bad-op")
+  | "nest" :: pid :: set :: accts =>
+    match parseKey pid, parseSet set, accts.mapM parseAcct with
+    | some pid, some s, some accts => ((), showRes (decodeValidate pid s accts))
+    | _, _, _ => ((), "bad-op")
+  | ["meta", chain] =>
+    match parseChain chain with
+    | some (ls, b) =>
+      let m := advertised ls b
+      ((), showBool m.signer ++ showBool m.writable)
+    | none => ((), "bad-op")
   | ["eq", a, b] =>
     match parseKey a, parseKey b with
-    | some a, some b => ((), showBool (fastEq32 a b))
+    | some a, some b => ((), showBool (Account.Modifiers.fastEq32 a b))
     | _, _ => ((), "bad-op")
   | _ => ((), "bad-op")
 
